@@ -18,6 +18,7 @@ type SpecEnv struct {
 	hasIdx  bool
 	pkg     *types.Package
 	inOld   bool
+	cur     *State // the current state while evaluating inside old(): locals declared after entry keep their current value
 }
 
 func (ex *Exec) envHere() *SpecEnv {
@@ -139,10 +140,23 @@ func (ex *Exec) sp(e SExpr, env *SpecEnv) Term {
 		if t, ok := env.names[x.Name]; ok {
 			return t
 		}
+		if env.useVars && env.inOld {
+			// inside old(): a parameter denotes its entry value
+			if t, ok := ex.params[x.Name]; ok {
+				if v, isVar := ex.names[x.Name]; !isVar || ex.isParamVar(v) {
+					return t
+				}
+			}
+		}
 		if env.useVars {
 			if v, ok := ex.names[x.Name]; ok {
 				if _, ok := ex.st.vars[v]; ok || ex.boxed[v] {
 					return ex.readVar(v)
+				}
+				if env.cur != nil {
+					if t, ok := env.cur.vars[v]; ok && !ex.boxed[v] {
+						return t
+					}
 				}
 			}
 		}
@@ -299,6 +313,17 @@ func (ex *Exec) sp(e SExpr, env *SpecEnv) Term {
 			sfail("type assertion on non-interface term")
 		}
 		return U.Unbox(t, v)
+	case SLet:
+		v := ex.sp(x.Val, env)
+		old, had := env.names[x.Name]
+		env.names[x.Name] = v
+		r := ex.sp(x.Body, env)
+		if had {
+			env.names[x.Name] = old
+		} else {
+			delete(env.names, x.Name)
+		}
+		return r
 	case SQuant:
 		saved := map[string]Term{}
 		had := map[string]bool{}
@@ -405,6 +430,9 @@ func (ex *Exec) specCall(x SCall, env *SpecEnv) Term {
 		ne := *env
 		ne.st = env.old
 		ne.inOld = true
+		if ne.cur == nil {
+			ne.cur = env.st
+		}
 		saved := ex.st
 		ex.st = env.old
 		t := ex.sp(x.Args[0], &ne)
@@ -466,6 +494,10 @@ func (ex *Exec) specCall(x SCall, env *SpecEnv) Term {
 	case "ref":
 		v := arg(0)
 		return Term{v.S, SInt}
+	case "asref":
+		// asref(T, n): the integer n read as a reference of type T
+		t := typeArg(0)
+		return Term{arg(1).S, U.SortOf(t)}
 	case "unchanged":
 		// a map (both its contents and its domain) is the same as in the pre-state
 		m := arg(0)
@@ -505,4 +537,20 @@ func (ex *Exec) specCall(x SCall, env *SpecEnv) Term {
 		args = append(args, a)
 	}
 	return Term{app(f.Name, args...), f.Res}
+}
+
+func (ex *Exec) isParamVar(v *types.Var) bool {
+	if ex.F.Obj == nil {
+		return false
+	}
+	sig := ex.F.Obj.Type().(*types.Signature)
+	if sig.Recv() == v {
+		return true
+	}
+	for i := 0; i < sig.Params().Len(); i++ {
+		if sig.Params().At(i) == v {
+			return true
+		}
+	}
+	return false
 }
